@@ -223,7 +223,7 @@ def pyStr (env : Env) : Val → R Val
   | .frac n d => .ok (.str (if d == 1 then intStr n else intStr n ++ '/' :: natStr d))
   | .uuid n => .ok (.str (uuidStr n))
   | .path s => .ok (.str s)
-  | .member c i =>
+  | .member c _ =>
     if isStrMixin env c then
       -- `str()` of a str-mixin member: Enum.__str__ is 'Cls.name' (needs the class name)
       .error .unsupported
